@@ -36,13 +36,25 @@ def _trades_placed_into_complete_trade(trace, upto):
                 t = q.get("t")
                 if t in pre.get("trd", {}) and pre["trd"][t]["status"] == "COMPLETE":
                     tainted.add(t)
+                # ... or had become COMPLETE earlier in the same callback (e.g. its first order was refused):
+                # the request's own snapshot shows the trade status at the time of the request
+                elif (q.get("before") or {}).get("tstatus") == "COMPLETE":
+                    tainted.add(t)
     return tainted
 
 
 def match_D16(v, trace):
-    if v["prop"] != "C10" or v["name"] not in ("TradeCompleteIff", "LiveTradesExact"):
+    if v["prop"] != "C10" or v["name"] not in ("TradeCompleteIff", "LiveTradesExact", "ResetClockExact"):   # (ResetClockExact: older detail format)
         return False
     tainted = _trades_placed_into_complete_trade(trace, v["step"])
+    if v["name"] == "ResetClockExact":
+        # the order that was placed into the already COMPLETE trade completes: the trade "completes" a second
+        # time (COMPLETE before and after the step) and the reset clock restarts
+        d = v["detail"]
+        if not isinstance(d, list) or len(d) < 13:
+            return False
+        completed, never, again = _set(d[8]) or [], _set(d[10]) or [], _set(d[12]) or []
+        return not completed and not never and d[4] == d[6] and any(t in tainted for t in again)
     ents = _set(v["detail"]) or []
     trades = [e[1] if isinstance(e, list) else e for e in ents]
     # the finding leaves a slot charged for a trade with nothing live ("stale"); a live trade that is
@@ -50,6 +62,23 @@ def match_D16(v, trace):
     if v["name"] == "LiveTradesExact" and any(isinstance(e, list) and len(e) > 2 and e[2] != "stale" for e in ents):
         return False
     return bool(trades) and all(t in tainted for t in trades)
+
+
+def match_D24(v, trace):
+    """reset cool-down restarted by the completion of a trade that was never placed"""
+    if v["prop"] != "C10" or v["name"] != "ResetClockExact":
+        return False
+    d = v["detail"]
+    # detail = <<key, "was", t0, "now", t1, "clock", c, "completed", placed trades completed, "neverplaced", never-placed trades completed>>
+    if not isinstance(d, list) or len(d) < 11:
+        return False
+    completed, never = _set(d[8]) or [], _set(d[10]) or []
+    if completed or not never or d[4] != d[6]:
+        return False
+    # the mechanism: the refused placement was made inside the strategy's own `with trade:` block
+    step = trace["steps"][v["step"] - 1]
+    ctx_refused = {q.get("t") for q in step.get("reqs", []) if q.get("kind") == "PLACE" and q.get("r") in ("REFUSE", "ERROR") and q.get("ctx")}
+    return all(t in ctx_refused for t in never)
 
 
 def match_D9(v, trace):
@@ -177,6 +206,7 @@ MATCHERS = {
     "D22": match_D22,
     "D1": match_D1,
     "D16": match_D16,
+    "D24": match_D24,
     "D9": match_D9,
 }
 
